@@ -115,7 +115,8 @@ GrpcRoundTripKeepsCode == [][(term'.op = "RT" /\ cls.code # "") => cls'.code = c
 Expected(c) ==
   LET cc == Cat(c.code) IN
   [fatal |-> c.fatal, code |-> c.code, ccat |-> cc, sents |-> c.sents, gst |-> c.gst,
-   exit |-> ExitOf(c, cc), api |-> ApiCat(c, cc), api2 |-> ApiCatPlugin(c, cc), apir |-> ApiReason(c),
+   exit |-> ExitOf(c, cc), api |-> ApiCat(c, cc), api2 |-> ApiCatPlugin(c, cc), api3 |-> ApiCatPlugin(c, cc),
+   api4 |-> ApiCatPlugin(c, cc), apir |-> ApiReason(c),
    rt |-> c.code, rtcat |-> cc]
 
 ExportCase == Export => PrintT("CASE " \o ToJson([term |-> term, exp |-> Expected(cls)]))
